@@ -241,6 +241,10 @@ fn judge_nesting(ctx: &mut WorkerCtx, n: usize) {
                             if let Some(m) = r.panicked {
                                 out.extend_from_slice(format!("{}-O{level} run panicked: {m}\n", b.name()).as_bytes());
                             }
+                            if let Some(e) = r.err {
+                                // the text is balanced: no executor may report a bracket error while running it
+                                out.extend_from_slice(format!("{}-O{level} run returned Err(loop_not_opened={}, position {})\n", b.name(), e.0, e.1).as_bytes());
+                            }
                         }
                         Err(e) => out.extend_from_slice(format!("{}-O{level} create failed: {e:?}\n", b.name()).as_bytes()),
                     }
@@ -318,8 +322,12 @@ pub fn worker(ctx: &mut WorkerCtx) {
         idx += 1;
         n = if n < 16 { n + 1 } else { n + n / 4 };
     }
-    if ctx.owns(idx) {
-        judge_nesting(ctx, p.nest_max);
+    for n in [127usize, 128, 129, 255, 256, 257, 258, p.nest_max] {
+        if ctx.owns(idx) {
+            ctx.mark(idx, 3, format!("nest {n}").as_bytes());
+            judge_nesting(ctx, n);
+        }
+        idx += 1;
     }
 }
 
